@@ -53,6 +53,15 @@ STRENGTHENED = {
     "XC_2": "(C13) every combination of the Hive clauses SORT BY / DISTRIBUTE BY / CLUSTER BY / LIMIT as own constructs of the Hive dialect",
     "XD_2": "every lineage request is also answered by an analyser that has already analysed other statements over the same catalogue; WITH tables named like base tables",
     "XD_5": "qgen: UNION branches repeated word for word",
+    "XF_3": "(C12) the set census follows sets defined in any file of the package (module.NAME); CAST spellings of neighbouring dialects in the request pool",
+    "XF_4": "(C19) family 'rejected: nested tuples' (syntax this grammar rejects today must be rejected in linear work too)",
+    "XF_6": "(C08) pairs (text with an extra clause or value, text without it): accepted => the trees differ; ELSE NULL in generated CASE expressions",
+    "XG_4": "(C08) the same pairs: EXCEPT / INTERSECT / MINUS ALL, UNION DISTINCT and 50 more constructs of neighbouring dialects",
+    "XG_6": "(C19) calls of builtins made by library code are counted as work as well (set / list comprehensions are invisible to a Python-call count)",
+    "XH_2": "(C16) lingen: LATERAL VIEW columns (single view, two aliases, UNION of two views with the same column alias)",
+    "XH_3": "(C17) cache names that end in s / q / l / '.' at the front of the name pool",
+    "XH_4": "(C15) qgen: table-qualified ORDER BY references spelled like a select-list alias stay as written",
+    "XH_6": "(C14) qgen: sub-queries inside JOIN ... ON conditions",
     "C19_3": "pattern 'blanks' (long runs of white space) in the scaled inputs; seconds used only in the search phase",
 }
 
